@@ -9,6 +9,7 @@ from ..workloads import grid_twolevel, rand_twolevel
 
 PROP = "C13"
 LEVEL = "exploration"
+BLOCK = 32   # neighbouring configurations share a worker process
 USES_ORACLES = True
 RULE = ("TwoLevelCheckpointSchedule for a grid of (n, period, "
         "binomial_snapshots, storage, trajectory) incl. every n (partial "
